@@ -4,8 +4,9 @@
    Proofs/TablesProofs.v fail on exactly those rows). *)
 From Coq Require Import NArith List String Bool Ascii.
 From Falco Require Import Base.TablesBase Model.ScopeMask Model.LintTables Model.LintOps Model.TablesDomain Model.InterpAssign.
+From Falco Require Import Gen.KnownGaps.
 From Falco Require Import Gen.LintConsts Gen.LintVars Gen.LintDyn Gen.LintFuncs Gen.RefVars Gen.RefFuncs Gen.InterpFuncs.
-From Falco Require Import Gen.ObsVars Gen.ObsFuncs Gen.ObsStmts Gen.ObsOps Gen.ObsWide.
+From Falco Require Import Gen.ObsVars Gen.ObsFuncs Gen.ObsStmts Gen.ObsOps Gen.ObsWide Gen.ObsCoerce Gen.ObsInferred.
 Import ListNotations.
 Local Open Scope N_scope.
 Local Open Scope string_scope.
@@ -68,13 +69,16 @@ Definition gaps_stmts : list gap_row :=
 Definition op_bits (f : string -> string -> bool) : N :=
   fold_right (fun c acc => match c with (p, rt, fm) => if f rt fm then N.lor (N.shiftl 1 p) acc else acc end) 0 op_cells_existing.
 
+Definition base_positions : N :=
+  fold_right (fun c acc => match c with (p, _, _) => N.lor (N.shiftl 1 p) acc end) 0 op_cells_base.
+
 Definition gaps_ops : list gap_row :=
   flat_map (fun r => match r with (op, lty, lint, interp) =>
     let model := op_bits (lint_op_model op lty) in
-    let refb := op_bits (ref_assign op lty) in
+    let refb := N.land (op_bits (ref_assign op lty)) base_positions in
     row_if "op-model" op lty (N.lxor model lint)
     ++ row_if "op-interp-model" op lty (N.lxor (op_bits (interp_op_model op lty)) interp)
-    ++ (if mem_str op assign_ops then row_if "op-ref" op lty (N.lxor lint refb) else [])
+    ++ (if mem_str op assign_ops then row_if "op-ref" op lty (N.lxor (N.land lint base_positions) refb) else [])
     ++ row_if "op-interp" op lty (N.ldiff lint interp) end) obs_ops.
 
 (* T-level: linter table vs reference table, dynamic objects, simulator function table *)
@@ -103,12 +107,31 @@ Definition gaps_wide : list gap_row :=
     row_if "stmt-wide-model" k "" (N.lxor (wide_bits (fun m => lint_stmt k (lint_mode m))) (wide_obs bits))
     ++ row_if "stmt-wide-ref" k "" (N.lxor (wide_bits (fun m => forallb (ref_stmt k) (scopes_of m))) (wide_obs bits)) end) obs_stmts_wide.
 
+(* a value where a type is expected *)
+Definition gaps_coerce : list gap_row :=
+  flat_map (fun r => match r with (cx, e, lint, interp) =>
+    row_if "coerce-model" cx e (N.lxor (op_bits (lint_coerce_model cx e)) lint)
+    ++ row_if "coerce-interp-model" cx e (N.lxor (op_bits (interp_coerce_model cx e)) interp)
+    ++ row_if "coerce-interp" cx e (N.ldiff lint interp) end) obs_coerce.
+
+(* scopes by call-graph inference: "<kind>:<depth>" in the at field; bits by compact mask value *)
+Definition inferred_gap_rows (masks : list N) (rows : list (string * string * string * N * N * N)) : list gap_row :=
+  flat_map (fun r => match r with (k, n, a, d, lint, interp) =>
+    let model := bits_of (fun m => lint_use_model gctx k n a m) masks in
+    let at_ := String.append k (String.append ":" (String.append a (String.append ":" (digit d)))) in
+    row_if "inferred-model" n at_ (N.lxor model (bits_of (N.testbit lint) masks))
+    ++ row_if "inferred-interp" n at_
+         (bits_of (fun m => if N.testbit lint m then (if N.testbit interp m then false else negb (use_gap_covers k n a m)) else false) masks) end) rows.
+Definition gaps_inferred : list gap_row :=
+  inferred_gap_rows pair_masks obs_inferred ++ inferred_gap_rows triple_masks obs_inferred3.
+
 Definition all_gap_rows : list gap_row :=
-  gaps_tables ++ gaps_func_table ++ gaps_vars ++ gaps_var_types ++ gaps_funcs ++ gaps_stmts ++ gaps_ops ++ gaps_wide.
+  gaps_tables ++ gaps_func_table ++ gaps_vars ++ gaps_var_types ++ gaps_funcs ++ gaps_stmts ++ gaps_ops ++ gaps_wide ++ gaps_coerce ++ gaps_inferred.
 
 Definition domain_sizes : list (string * N) :=
   [("variables", N.of_nat (List.length lint_var_flat)); ("variable rows", N.of_nat (List.length obs_vars));
    ("functions", N.of_nat (List.length lint_func_flat)); ("function rows", N.of_nat (List.length obs_funcs));
    ("statement rows", N.of_nat (List.length obs_stmts)); ("operator rows", N.of_nat (List.length obs_ops));
    ("operator cells per row", N.of_nat (List.length op_cells_existing)); ("masks", N.of_nat (List.length masks45));
-   ("wide masks", N.of_nat (List.length obs_wide_masks)); ("wide rows", N.of_nat (List.length obs_vars_wide + List.length obs_funcs_wide + List.length obs_stmts_wide))].
+   ("wide masks", N.of_nat (List.length obs_wide_masks)); ("coercion rows", N.of_nat (List.length obs_coerce));
+   ("inferred-scope rows (x 36 pairs)", N.of_nat (List.length obs_inferred)); ("inferred-scope rows (x 84 triples)", N.of_nat (List.length obs_inferred3)); ("wide rows", N.of_nat (List.length obs_vars_wide + List.length obs_funcs_wide + List.length obs_stmts_wide))].
